@@ -127,10 +127,12 @@ def gen(d, tier):
         dup = S.mk_cmd(G.up_or_low(d, src["name"]), "w" if not src["implicit"] else "wrnt", [])
         dup["implicit"] = 0 if src["implicit"] else 1
         cmds.insert(d.below(len(cmds) + 1), dup)
+    groups = G.g_groups(d, cmds, maxgroups=4)
     n = len(cmds)
+    if d.unlikely(1, 8) and G.add_alias(d, groups):
+        n = len(S.slots(dict(groups=groups)))      # one command array registered through two groups
     need = (n + 3) // 4
     cc = max(6, need) if d.chance(1, 3) else max(6, need) + d.pick([0, 1, 2, 7, 20, 40])
-    groups = G.g_groups(d, cmds, maxgroups=4)
     inp = bytearray()
     for t, rest in typed:
         at = d.weighted([(6, b"AT"), (2, b"at"), (1, b"aT")])
@@ -208,6 +210,8 @@ def run(case, W):
         labels.add("capacity-minimal")
     if any(dis):
         labels.add("has-disabled")
+    if any(g.get("alias") is not None for g in s["groups"]):
+        labels.add("aliased-group")
     return Result(labels=sorted(labels), nontrivial=nt)
 
 
@@ -238,7 +242,7 @@ def minimise(case, W, sig):
     from ..minimise import minimise_spec
 
     def still(sp):
-        if (len(S.all_cmds(sp)) + 3) // 4 > S.ccap(sp):
+        if (len(S.slots(sp)) + 3) // 4 > S.ccap(sp):
             return False
         r = run(dict(spec=sp), W)
         return r.violation is not None and r.violation[0] == sig
